@@ -15,7 +15,7 @@ use crate::props::c01::{addr_strategy, byte_strategy};
 use crate::props::c15::IoKind;
 use crate::repr::{ref_classify, M};
 
-pub const RULE: &str = "exchanges = (message, reply tape, port faults): every message kind (including Unknown frames and the sign-side kinds ReportState/AckOperation) with parameters sampled across their ranges x a reply tape of 0..3 lines (frames of known messages, unknown frames, malformed text, nothing = timeout/EOF) plus trailing bytes x {no fault, short writes, Interrupted writes, Ok(0) or a hard write error at call k, fragmented reads, a hard read error at call k} on an instrumented port. Oracle: bytes written = exactly the message's frame encoding with CRLF (built from the protocol table by the harness), all writes before any read; a reply is read - exactly one line - if and only if the message is Hello/QueryState/RequestOperation and the result is the table interpretation of that line or an error if it does not decode / the read fails / nothing arrives; otherwise Ok(None) with zero read calls; a write failure gives Err and no read. Non-trivial = (message kind, reply class, fault point) triples other than (non-expecting kind, empty tape, no fault); distinct by hash of the case";
+pub const RULE: &str = "exchanges = (message, reply tape, port faults): every message kind (including Unknown frames and the sign-side kinds ReportState/AckOperation) with parameters sampled across their ranges x a reply tape of 0..3 lines (frames of known messages, unknown frames, malformed text, nothing = timeout/EOF) plus trailing bytes x {no fault, short writes, Interrupted writes, Ok(0) or a hard write error at call k, fragmented reads, a hard read error at call k} on an instrumented port. Oracle: bytes written = exactly the message's frame encoding with CRLF (built from the protocol table by the harness), all writes before any read; a reply is read - exactly one line - if and only if the message is Hello/QueryState/RequestOperation and the result is the table interpretation of that line or an error if it does not decode / the read fails / nothing arrives; otherwise Ok(None) with zero read calls; a write failure gives Err and no read. Sessions of 1..6 messages on ONE bus instance over a tape of valid, unknown and undecodable reply lines check the same per exchange with cumulative byte accounting (state kept across calls must not leak from a bad reply into the next exchange). Non-trivial = (message kind, reply class, fault point) triples other than (non-expecting kind, empty tape, no fault); distinct by hash of the case";
 pub const ASSUMPTIONS: &[&str] = &[
     "expected wire bytes and reply interpretation come from the harness's protocol table and reference Intel-HEX codec, not from flipdot's conversions",
     "pacing sleeps are real (C18 measures them); cases run on 64 threads so sleeping costs no CPU",
@@ -245,6 +245,118 @@ pub fn check_exchange(c: &ExchangeCase, st: &mut Stats) -> Result<(), String> {
 }
 
 // ---------------------------------------------------------------------------------------
+// sessions: several exchanges on ONE bus instance (state kept across calls must not leak)
+
+#[derive(Serialize, Deserialize, Debug, Clone, PartialEq, Eq, Hash)]
+pub struct SessionCase {
+    pub msgs: Vec<M>,
+    pub tape: Vec<Line>,
+    pub crlf: bool,
+    pub timeout_at_end: bool,
+}
+
+pub fn check_session(c: &SessionCase, st: &mut Stats) -> Result<(), String> {
+    let as_exchange = ExchangeCase { msg: M::Count(0), tape: c.tape.clone(), crlf: c.crlf, trailing: vec![], fault: PortFault::None, timeout_at_end: c.timeout_at_end };
+    let (port, tape, _) = make_port(&as_exchange);
+    let h = port.handle();
+    let mut bus = SerialSignBus::try_new(port).map_err(|e| format!("SerialSignBus::try_new failed on a cooperative port: {e}"))?;
+    let mut want_written: Vec<u8> = vec![];
+    let mut want_pos = 0usize;
+    let mut after_bad_reply = false;
+    let mut interesting = false;
+    for (i, m) in c.msgs.iter().enumerate() {
+        let result = catch(|| bus.process_message(m.to_message()).map(|r| r.map(|x| M::from_message(&x))).map_err(|e| e.to_string()))
+            .map_err(|p| format!("exchange {i}: process_message({}) panicked: {p}", m.short()))?;
+        st.eval();
+        let s = h.borrow();
+        want_written.extend_from_slice(&wire_of(m));
+        want_written.extend_from_slice(b"\r\n");
+        if s.written != want_written {
+            return Err(format!(
+                "exchange {i} ({}): the port has received {} in total, expected {}",
+                m.short(),
+                show_bytes(&s.written),
+                show_bytes(&want_written)
+            ));
+        }
+        if !reply_expected(m) {
+            if s.pos != want_pos {
+                return Err(format!("exchange {i} ({}): no reply is due but the bus read {} bytes", m.short(), s.pos - want_pos));
+            }
+            if result != Ok(None) {
+                return Err(format!("exchange {i} ({}): no reply is due but process_message returned {result:?}", m.short()));
+            }
+            continue;
+        }
+        let line_end = tape[want_pos..].iter().position(|&b| b == b'\n').map(|k| want_pos + k + 1).unwrap_or(tape.len());
+        let line = &tape[want_pos..line_end];
+        if s.pos != line_end {
+            return Err(format!(
+                "exchange {i} ({}): the bus is at offset {} of the reply stream {}, exactly one more line ends at {line_end}",
+                m.short(),
+                s.pos,
+                show_bytes(&tape)
+            ));
+        }
+        let exhausted_timeout = line.is_empty() && c.timeout_at_end;
+        let want: Result<Option<M>, ()> = match ref_decode(line) {
+            RefDecode::Ok { addr, ty, data } if !exhausted_timeout => Ok(Some(ref_classify(addr, ty, &data))),
+            _ => Err(()),
+        };
+        match (&result, &want) {
+            (Ok(got), Ok(w)) if got == w => {
+                if after_bad_reply {
+                    interesting = true;
+                    st.class("session:valid-reply-after-a-bad-one");
+                }
+            }
+            (Err(_), Err(())) => after_bad_reply = true,
+            _ => {
+                return Err(format!(
+                    "exchange {i} ({}): reply line {} -> process_message returned {:?}, expected {:?}{}",
+                    m.short(),
+                    show_bytes(line),
+                    result.as_ref().map(|r| r.as_ref().map(|x| x.short())),
+                    want.as_ref().map(|r| r.as_ref().map(|x| x.short())),
+                    if after_bad_reply { " (an earlier reply on this bus was undecodable)" } else { "" }
+                ))
+            }
+        }
+        want_pos = line_end;
+    }
+    if c.msgs.len() >= 2 {
+        st.nontrivial(h64(c));
+    }
+    st.class("session");
+    if st.want_sample() && interesting {
+        st.sample(json!({"session": c.msgs.iter().map(|m| m.short()).collect::<Vec<_>>(), "reply_stream": show_bytes(&tape)}));
+    }
+    Ok(())
+}
+
+pub fn session_strategy() -> impl Strategy<Value = SessionCase> {
+    let msg = prop_oneof![
+        3 => addr_strategy().prop_map(M::Hello),
+        3 => addr_strategy().prop_map(M::Query),
+        4 => (addr_strategy(), 0u8..6).prop_map(|(a, o)| M::Req(a, o)),
+        1 => addr_strategy().prop_map(M::Goodbye),
+        1 => addr_strategy().prop_map(M::PixelsComplete),
+        1 => any::<u16>().prop_map(M::Count),
+    ];
+    let line = prop_oneof![
+        6 => (addr_strategy(), prop_oneof![8 => 0u8..8, 1 => 8u8..13]).prop_map(|(a, s)| Line::Msg(M::Report(a, s))),
+        4 => (addr_strategy(), 0u8..6).prop_map(|(a, o)| Line::Msg(M::Ack(a, o))),
+        1 => Just(Line::Raw(vec![])),
+        1 => Just(Line::Raw(b":0100030407F0".to_vec())),
+        1 => Just(Line::Raw(b":0200030407F1".to_vec())),
+        1 => Just(Line::Raw(b"noise".to_vec())),
+        1 => proptest::collection::vec(any::<u8>(), 0..12).prop_map(Line::Raw),
+    ];
+    (proptest::collection::vec(msg, 1..=6), proptest::collection::vec(line, 0..=7), prop_oneof![5 => Just(true), 1 => Just(false)], any::<bool>())
+        .prop_map(|(msgs, tape, crlf, timeout_at_end)| SessionCase { msgs, tape, crlf, timeout_at_end })
+}
+
+// ---------------------------------------------------------------------------------------
 
 pub fn any_msg_strategy() -> impl Strategy<Value = M> {
     let a = addr_strategy;
@@ -367,10 +479,43 @@ pub fn run(ctx: &Ctx) {
     });
     ctx.part_done("kinds-x-replies-x-faults", true, json!({"messages": msgs.len(), "reply_tapes": replies.len(), "faults": faults.len(), "cases": n}));
 
+    // sessions: every ordered pair (bad reply kind, then a valid reply) on one bus, then generated sessions
+    let bad: Vec<Line> = vec![Line::Raw(vec![]), Line::Raw(b"noise".to_vec()), Line::Raw(b":0100030407F0".to_vec()), Line::Raw(b":0200030407F1".to_vec()), Line::Raw(b":01000304".to_vec())];
+    let mut sessions: Vec<SessionCase> = vec![];
+    for b in &bad {
+        for first in [M::Hello(3), M::Query(3), M::Req(3, 1)] {
+            for second in [M::Hello(3), M::Query(3), M::Req(3, 4)] {
+                let reply2 = if let M::Req(a, o) = &second { M::Ack(*a, *o) } else { M::Report(3, 2) };
+                sessions.push(SessionCase {
+                    msgs: vec![first.clone(), M::Count(1), second.clone(), M::Query(3)],
+                    tape: vec![b.clone(), Line::Msg(reply2), Line::Msg(M::Report(3, 7))],
+                    crlf: true,
+                    timeout_at_end: false,
+                });
+            }
+        }
+    }
+    {
+        let mut st = Stats::new();
+        for c in &sessions {
+            if let Err(m) = check_session(c, &mut st) {
+                ctx.fail("session-bad-then-good", serde_json::to_value(c).unwrap(), m);
+                break;
+            }
+        }
+        ctx.merge("session-bad-then-good", st);
+        ctx.part_done("session-bad-then-good", true, json!({"sessions": sessions.len(), "what": "5 kinds of undecodable reply x 3 first messages x 3 second messages, then valid replies, on one bus instance"}));
+    }
+    crate::engine::run_generated_opts(ctx, "session-generated", ctx.tier.pick(40_000, 600_000), 64, 2_000, session_strategy, |c, st| check_session(c, st));
+
     crate::engine::run_generated_opts(ctx, "generated", ctx.tier.pick(40_000, 600_000), 64, 2_000, exchange_strategy, |c, st| check_exchange(c, st));
 }
 
-pub fn replay(_part: &str, case: &Value) -> Result<(), String> {
+pub fn replay(part: &str, case: &Value) -> Result<(), String> {
+    if part.starts_with("session") {
+        let c: SessionCase = serde_json::from_value(case.clone()).map_err(|e| format!("bad case: {e}"))?;
+        return check_session(&c, &mut Stats::new());
+    }
     let c: ExchangeCase = serde_json::from_value(case.clone()).map_err(|e| format!("bad case: {e}"))?;
     check_exchange(&c, &mut Stats::new())
 }
